@@ -491,9 +491,10 @@ def lexLoop (tb : Int) : Nat → List Nat → Int → Bool → Option Out
         if w.1 = wSub ∨ w.1 = [83] then
           let c1 := (Cur.mk w.2 ln).skipSpace
           let blk := getTokenNest 123 125 c1.s c1.line
-          match lexLoop tb f blk.1 blk.2.line false, lexLoop tb f blk.2.s blk.2.line harm with
+          -- the nested call starts at the line the block's text starts on
+          match lexLoop tb f blk.1 c1.line false, lexLoop tb f blk.2.s blk.2.line harm with
           | some inner, some o =>
-            some ⟨.mk .sub 0 0 none [] (some (.mk .lineNo 0 blk.2.line none [] none :: inner.toks)) :: o.toks, inner.errs ++ o.errs⟩
+            some ⟨.mk .sub 0 0 none [] (some (.mk .lineNo 0 c1.line none [] none :: inner.toks)) :: o.toks, inner.errs ++ o.errs⟩
           | _, _ => none
         else none
     else if ch = 35 then
@@ -528,9 +529,9 @@ def lexLoop (tb : Int) : Nat → List Nat → Int → Bool → Option Out
     else if ch = 123 then
       let blk := getTokenNest 123 125 (c :: cs) ln
       let lens := blk.2.noteLength
-      match lexLoop tb f blk.1 lens.2.line false, lexLoop tb f lens.2.s lens.2.line harm with
+      match lexLoop tb f blk.1 ln false, lexLoop tb f lens.2.s lens.2.line harm with
       | some inner, some o =>
-        let kids := Tok.mk .lineNo 0 lens.2.line none [] none :: inner.toks
+        let kids := Tok.mk .lineNo 0 ln none [] none :: inner.toks
         some ⟨.mk .div (countDiv kids 1 [] 0) 0 none [.str lens.1] (some kids) :: o.toks, inner.errs ++ o.errs⟩
       | _, _ => none
     else if ch = 96 then one (tok .octaveOnce 1 [])
